@@ -230,6 +230,68 @@ fn hulls(rng: &mut Rng) {
         }
     }
     emit_oracle_only("hull.order_and_pivot", &Tok::new(), &Tok::new(), &v);
+    pivot_cloud(rng);
+}
+
+/// ball pivot around a scattered cloud (distinct, non-gridded coordinates), small and large radii:
+/// every reported ball touches both consecutive hull points and holds no input point strictly inside
+fn pivot_cloud(rng: &mut Rng) {
+    let n = *rng.pick(&[150usize, 400, 1200, 2500]);
+    let big = 3.0;
+    let mut pts: Vec<Point2> = Vec::with_capacity(n);
+    while pts.len() < n {
+        let p = Point2::new(rng.range(-big, big), rng.range(-big, big));
+        if p.coords.norm() <= big {
+            pts.push(p);
+        }
+    }
+    // mean spacing ~ sqrt(area / n); the ball must not fall through the cloud
+    let spacing = (std::f64::consts::PI * big * big / n as f64).sqrt();
+    let radius = spacing * *rng.pick(&[2.5, 3.0, 4.0, 6.0, 10.0]);
+    let dir = if rng.chance(0.5) { AngleDir::Ccw } else { AngleDir::Cw };
+    let mut v = Verdict::new();
+    let pts2 = pts.clone();
+    let r = {
+        let (tx, rx) = std::sync::mpsc::channel();
+        std::thread::spawn(move || {
+            let r = guarded(|| ball_pivot_with_centers_2d(&pts2, BallPivotStart::StartOnConvex, BallPivotEnd::EndOnRepeat, dir, radius).map_err(|e| e.to_string()));
+            let _ = tx.send(r);
+        });
+        rx.recv_timeout(std::time::Duration::from_secs(10)).ok()
+    };
+    match r {
+        None => {
+            v.require(false, "ball_pivot.terminates", || format!("n={n} radius={radius} no result within 10 s"));
+            emit_oracle_only("hull.pivot_cloud", &Tok::new(), &Tok::new(), &v);
+            use std::io::Write;
+            std::io::stdout().flush().ok();
+            std::process::exit(0);
+        }
+        Some(Err(e)) => v.require(false, "ball_pivot.panics", || e.clone()),
+        Some(Ok(Err(_))) => {}
+        Some(Ok(Ok((idx, centers)))) => {
+            v.require(idx.len() == centers.len() + 1, "ball_pivot.one_centre_per_step", || format!("{} vs {}", idx.len(), centers.len()));
+            let mut bad_touch = None;
+            let mut bad_inside = None;
+            for (j, c) in centers.iter().enumerate() {
+                if j + 1 >= idx.len() {
+                    break;
+                }
+                let (a, b) = (pts[idx[j]], pts[idx[j + 1]]);
+                if ((c - a).norm() - radius).abs() > 1e-7 || ((c - b).norm() - radius).abs() > 1e-7 {
+                    bad_touch.get_or_insert(j);
+                }
+                for (k, p) in pts.iter().enumerate() {
+                    if (c - p).norm() < radius - 1e-7 {
+                        bad_inside.get_or_insert((j, k, (c - p).norm()));
+                    }
+                }
+            }
+            v.require(bad_touch.is_none(), "ball_pivot.centre_one_radius_from_both_points", || format!("n={n} radius={radius} step {:?}", bad_touch));
+            v.require(bad_inside.is_none(), "ball_pivot.no_point_strictly_inside_ball", || format!("n={n} radius={radius} (step, point, distance) {:?}", bad_inside));
+        }
+    }
+    emit_oracle_only("hull.pivot_cloud", &Tok::new(), &Tok::new(), &v);
 }
 
 fn tri_dist(p: &Point3, a: &Point3, b: &Point3, c: &Point3) -> f64 {
